@@ -111,7 +111,7 @@ extern "C" void c19_run()
       continue;
     int a = op.a, b = op.b;
     int res = -1;
-    {
+    auto apply = [&]() {
       SimTag tag(SIM_TAG_SUT);
       switch (op.kind) {
       case C19_NEW_OBSERVABLE: oa[a] = new Observable(); break;
@@ -131,6 +131,12 @@ extern "C" void c19_run()
       case C19_ASSIGN_OBSERVER: *ob[a] = *ob[b]; break;
       case C19_ASSIGN_OBSERVABLE: *oa[a] = *oa[b]; break;
       }
+    };
+    if (i < 25 && (p->hop_mask >> i & 1)) {
+      std::thread helper(apply);  // ordered before and after by start and join
+      helper.join();
+    } else {
+      apply();
     }
     c19_obs_done(&op, res);
     if (p->t0_stamp_ops && (i & 1)) {
